@@ -50,6 +50,9 @@ def ob_init(h):
         h.cover("latent")
         h.check("latent_span", h.eq(s._t_max - s._t_min, 0.01))
         h.check("latent_kind", (s._type == COLD) if q > 0 else (s._type == HOT))
+        # the sign of the duty of an isothermal stream only gives its direction: the stream carries the magnitude
+        h.check("latent_duty_is_the_magnitude", h.eq(s._heat_flow, q if q > 0 else -q))
+        h.check("latent_heat_capacity_flow_positive", s._CP > 0)
     else:
         h.check("kind_from_direction", (s._type == HOT) if ts > tt else (s._type == COLD))
     h.check("rcp", h.eq(s._RCP_prod, s._CP * s._htr))
